@@ -134,6 +134,16 @@ Definition py_unique_list (v : pyval) : res pyval :=
 
 Definition zint (z : Z) : pyval := PNum (NInt z).
 
+(* isinstance(v, enum.Enum): a member of an enum class *)
+Definition py_is_enum_member (v : pyval) : bool := match v with PEnum _ _ _ => true | _ => false end.
+
+(* try: body  except <x>: handler   (both are statement blocks: res unit) *)
+Definition py_catch (x : exn) (body handler : res unit) : res unit :=
+  match body with
+  | Raise e => if exn_eqb e x then handler else Raise e
+  | Ok u => Ok u
+  end.
+
 (* ------------------------------------------------------------------ facts *)
 
 Lemma num_ltb_int a b : num_ltb (NInt a) (NInt b) = (a <? b).
